@@ -9,6 +9,28 @@ d = os.path.abspath(sys.argv[1])
 env = dict(os.environ, GOFLAGS="-mod=mod", GOPROXY="off", GOSUMDB="off", GOTOOLCHAIN="local")
 meta = json.load(open(os.path.join(d, "meta.json")))
 demo = os.path.join(d, "demo_test.go")
+scripts = sorted(f for f in os.listdir(d) if f.startswith("demo") and f.endswith(".sh"))
+if not os.path.exists(demo) and scripts:
+    # demonstration is a script `demo.sh [worktree]`: exit 0 = passes, non-zero = fails
+    wt = tempfile.mkdtemp(prefix="/tmp/confirm-"); os.rmdir(wt)
+    subprocess.run(["git", "-C", "/repo", "worktree", "add", "--detach", wt, "HEAD"], check=True, stdout=subprocess.DEVNULL, stderr=subprocess.DEVNULL)
+    def sh(cmd):
+        p = subprocess.run(cmd, shell=True, cwd=wt, env=env, stdout=subprocess.PIPE, stderr=subprocess.STDOUT, text=True)
+        return p.returncode, p.stdout
+    res = {}
+    try:
+        rc, out = sh("git apply %s/patch.diff" % d); res["applies"] = rc == 0
+        rc, out = sh("go build ./... && go test -vet=off -count=1 ./... 2>&1 | tail -25"); res["suite_passes_with_change"] = rc == 0 and "FAIL" not in out
+        rc, out = sh("bash %s/%s %s" % (d, scripts[0], wt)); res["demo_fails_with_change"] = rc != 0
+        sh("git apply -R %s/patch.diff" % d)
+        rc, out = sh("bash %s/%s %s" % (d, scripts[0], wt)); res["demo_passes_without_change"] = rc == 0
+    finally:
+        subprocess.run(["git", "-C", "/repo", "worktree", "remove", "--force", wt])
+    res["head"] = subprocess.run(["git", "-C", "/repo", "rev-parse", "--short", "HEAD"], stdout=subprocess.PIPE, text=True).stdout.strip()
+    meta["confirmed"] = res
+    json.dump(meta, open(os.path.join(d, "meta.json"), "w"), indent=1)
+    print(json.dumps(res))
+    sys.exit(0 if all(v for k, v in res.items() if k != "head") else 1)
 src = open(demo).read()
 demo_dir = meta.get("demo_dir")
 if not demo_dir:
